@@ -156,6 +156,9 @@ func (s *Service) proposeBlock(ctx context.Context,
 		return errors.Wrap(err, "failed to obtain proposal")
 	}
 	proposal := proposalResponse.Data
+	if proposal == nil {
+		return errors.New("obtained empty proposal")
+	}
 	if proposal.Blinded {
 		monitorBeaconBlockProposalSource("relay")
 	} else {
